@@ -223,7 +223,7 @@ const refsPerDoc = 6
 // statement, all levels / overrides / store and identity lists) and generated references.
 func TestC08_OCISelect(t *testing.T) {
 	rec := stats.New(t, "C08", rule)
-	rp.Check(t, 150000/refsPerDoc, 4000000/refsPerDoc, func(rt *rapid.T) {
+	rp.Check(t, 102000/refsPerDoc, 4000000/refsPerDoc, func(rt *rapid.T) {
 		d := genOCIDoc(rt, true)
 		docs := prepOCI(t, d.Stmts, rapid.IntRange(0, len(perms(len(d.Stmts)))-1).Draw(rt, "validatePerm"))
 		sig := docSig(d.Stmts)
